@@ -11,13 +11,14 @@ VARIABLE h      \* history: the messages sent so far
 
 gvars == <<vars, h>>
 GView == <<alive, ver, cmpct, auth, addrd, ahr, bip, gd, h1, h2, mp>>   \* (o1, o2 hidden: see GViewOrph)
-GViewOrph == <<GView, o1, o2>>     \* for the deep, narrow export that brings both colliding orphans into the pool
+GViewOrph == <<GView, o1, o2>>
+GViewEnv == <<GView, pf>>          \* for the narrow exports with the environment actions     \* for the deep, narrow export that brings both colliding orphans into the pool
 GViewScore == <<GView, score>>     \* for the deep, narrow export that reaches the ban
 
 St == [alive |-> alive', ver |-> ver', cmpct |-> cmpct', auth |-> auth', addrd |-> addrd', ahr |-> ahr',
-       bip |-> bip', gd |-> gd', h1 |-> h1', h2 |-> h2', mp |-> mp', o1 |-> o1', o2 |-> o2']
+       bip |-> bip', gd |-> gd', h1 |-> h1', h2 |-> h2', mp |-> mp', pf |-> pf', o1 |-> o1', o2 |-> o2']
 Pre == [alive |-> alive, ver |-> ver, cmpct |-> cmpct, auth |-> auth, addrd |-> addrd, ahr |-> ahr,
-        bip |-> bip, gd |-> gd, h1 |-> h1, h2 |-> h2, mp |-> mp, o1 |-> o1, o2 |-> o2]
+        bip |-> bip, gd |-> gd, h1 |-> h1, h2 |-> h2, mp |-> mp, pf |-> pf, o1 |-> o1, o2 |-> o2]
 
 GInit == Init /\ h = << >>
 
